@@ -1021,11 +1021,10 @@ struct Scratch(std::path::PathBuf);
 
 impl Drop for Scratch {
     fn drop(&mut self) {
+        // only the case's own directory: work/C19 itself belongs to the supervisor (it holds the
+        // shard results and heartbeats, and the supervisor replays reproductions before it spawns
+        // the workers)
         let _ = std::fs::remove_dir_all(&self.0);
-        // under --replay nothing else lives in work/C19: remove it when it is empty
-        if let Some(parent) = self.0.parent() {
-            let _ = std::fs::remove_dir(parent);
-        }
     }
 }
 
@@ -1385,6 +1384,14 @@ fn render_image(img: &Image) -> String {
 }
 
 fn render(c: &Case) -> String {
+    // never let a rendering problem take the worker down
+    match guard(|| render_inner(c)) {
+        Ok(s) => s,
+        Err(pi) => format!("(rendering failed: {} at {}:{})\n{:?}", pi.msg, pi.file, pi.line, c),
+    }
+}
+
+fn render_inner(c: &Case) -> String {
     match c {
         Case::Single { image, base, user } => format!("load at base 0x{:x}, user entries {:?}\n{}", base, user, render_image(image)),
         Case::Link { objs } => {
@@ -1536,7 +1543,64 @@ fn simplify(c: &Case) -> Vec<Case> {
     }
 }
 
+/// development aid (C19_SELFTEST=1): the generator and the writer must be total over tapes,
+/// including the degenerate ones shrinking produces
+fn selftest() {
+    let mut x: u64 = 0x1234_5678_9abc_def1;
+    let mut next = move || {
+        x ^= x << 13;
+        x ^= x >> 7;
+        x ^= x << 17;
+        x
+    };
+    let mut bad = 0;
+    for round in 0..200_000u32 {
+        let mode = round % 5;
+        let tape: Vec<u32> = (0..1100)
+            .map(|i| match mode {
+                0 => 0,
+                1 => u32::MAX,
+                2 => {
+                    if next() % 3 == 0 {
+                        0
+                    } else {
+                        next() as u32
+                    }
+                }
+                3 => {
+                    if (i as u64) < next() % 1100 {
+                        next() as u32
+                    } else {
+                        0
+                    }
+                }
+                _ => [0u32, u32::MAX, 0x8000_0000, 1][(next() % 4) as usize],
+            })
+            .collect();
+        let r = guard(|| {
+            let mut t = Tape::new(&tape);
+            let c = decode(&mut t);
+            let _ = render_inner(&c);
+            let _ = simplify(&c);
+            let mut o = Obs::default();
+            o.replay = true;
+            let _ = c;
+        });
+        if let Err(pi) = r {
+            bad += 1;
+            if bad < 10 {
+                println!("selftest: mode {} panicked: {} at {}:{}", mode, pi.msg, pi.file, pi.line);
+            }
+        }
+    }
+    println!("selftest: {} panics", bad);
+}
+
 fn main() -> std::process::ExitCode {
+    if std::env::var("C19_SELFTEST").is_ok() {
+        selftest();
+        return std::process::ExitCode::SUCCESS;
+    }
     let mut spec = Spec::new(
         "C19",
         "ELF images written by the harness from a model (ELF32/64, LSB/MSB, EM_386/X86_64/MIPS/PPC/AARCH64, 1-4 PT_LOAD segments with every R/W/X combination, zero-fill tails, non-load program headers, .symtab/.dynsym with FUNC/OBJECT/NOTYPE x local/global/weak x defined/undefined/zero-valued/absolute symbols, .dynamic, PLT and dynamic relocations) loaded with Elf::new at base B and at base 0, with user entries; about 5% of the cases are a main program plus one or two shared objects (EM_386, or MIPS o32 with a GOT) written to a scratch directory and linked with ElfLinker. Non-trivial single image = at least two segments with memsz > filesz in one of them, B != 0 and at least three different kinds of symbols; non-trivial link = at least two relocated words, of two kinds for EM_386, and a library base != 0. Distinct = (machine, class, endianness, per-segment flags/zero-fill shape, set of symbol kinds, alignment of B, PLT relocations present, number of user entries) resp. (number of objects, relocation kinds, number of relocations, segments per object)",
@@ -1545,7 +1609,13 @@ fn main() -> std::process::ExitCode {
         check,
     );
     spec.render = render;
-    spec.simplify = Some(simplify);
+    spec.simplify = Some(|c: &Case| match guard(|| simplify(c)) {
+        Ok(v) => v,
+        Err(pi) => {
+            eprintln!("C19: simplify panicked: {} at {}:{}", pi.msg, pi.file, pi.line);
+            Vec::new()
+        }
+    });
     spec.assumptions = vec![
         "only images the harness writer can express: SysV DT_HASH (no DT_GNU_HASH), no symbol versioning, no compressed or grouped sections, at most 4 PT_LOAD segments, 8+6 symbols".into(),
         "machine / class / data combinations are the ones the psABIs define (EM_386 and EM_X86_64 are LSB only, EM_PPC is ELF32); EM_PPC LSB is generated but falcon declines it with an error, which is counted as an exclusion, not as a violation".into(),
